@@ -185,3 +185,17 @@ Definition blank_neutral (tbl : list st) : bool :=
 Lemma blank_neutral_ok : blank_neutral table = true.
 Proof. vm_compute. reflexivity. Qed.
 
+
+(* ---- rows of one table ---- *)
+(* a row state: a table row is built there and the state kept (the rows after the first of a data table or of an
+   examples table).  In every row state a blank line and a comment are built and the state kept too: rows separated
+   by blank lines or comments are rows of the same table (so the first row whose cell count deviates is still compared
+   with the first row of that table). *)
+Definition row_state (x : st) : bool :=
+  sel_beq (select (s_tests x) KTableRow (fun _ => true)) (Some (KTableRow, [PB], s_id x)).
+Definition rows_stay : bool :=
+  forallb (fun x => implb (row_state x)
+     (forallb (fun k => sel_beq (select (s_tests x) k (fun _ => true)) (Some (k, [PB], s_id x))) [KEmpty; KComment])) table
+  && Nat.leb 5 (length (filter row_state table)).
+Lemma rows_stay_ok : rows_stay = true.
+Proof. vm_compute. reflexivity. Qed.
